@@ -15,12 +15,30 @@ from vf.core import yp
 def image(n):
     a = yp.anchor_of(n)
     if isinstance(n, dict):
-        return {"t": "map", "a": a, "items": [[key_image(k), image(v)] for k, v in n.items()]}
+        img = {"t": "map", "a": a, "items": [[key_image(k), image(v)] for k, v in yp.own_items(n)]}
+        if yp.merge_refs(n):
+            img["merge"] = yp.merge_refs(n)      # `<<` references; inherited keys are not part of the image
+        return img
     if yp.is_set(n):
         return {"t": "set", "a": a, "items": [list(yp.scalar_plain(e)) for e in n]}
     if isinstance(n, list):
         return {"t": "seq", "a": a, "items": [image(e) for e in n]}
     return {"t": "s", "a": a, "v": list(yp.scalar_plain(n))}
+
+
+def effective(n, _depth=0):
+    """What a reader of the document sees: every key a mapping holds *or inherits*, anchors and merge
+    bookkeeping left out (order of inherited keys is not data)."""
+    if isinstance(n, dict):
+        own = {repr(key_image(k)[:2]) for k, _ in yp.own_items(n)}
+        items = [[key_image(k)[:2], effective(v, _depth + 1)] for k, v in n.items()]
+        return {"t": "map", "own": [kv for kv in items if repr(kv[0]) in own],
+                "inherited": sorted((kv for kv in items if repr(kv[0]) not in own), key=repr)}
+    if yp.is_set(n):
+        return {"t": "set", "items": [list(yp.scalar_plain(e)) for e in n]}
+    if isinstance(n, list):
+        return {"t": "seq", "items": [effective(e, _depth + 1) for e in n]}
+    return {"t": "s", "v": list(yp.scalar_plain(n))}
 
 
 def key_image(k):
@@ -104,6 +122,8 @@ def diff(a, b, loc=()):
                 out.append((loc, "set %r -> %r" % (x["items"], y["items"])))
             return
         if x["t"] == "map":
+            if x.get("merge") != y.get("merge"):
+                out.append((loc, "merge-refs %r -> %r" % (x.get("merge"), y.get("merge"))))
             kx = [k for k, _ in x["items"]]
             ky = [k for k, _ in y["items"]]
             if kx != ky:
@@ -126,6 +146,7 @@ def strip_anchors(img):
 
     def walk(x):
         x["a"] = None
+        x.pop("merge", None)          # anchor names again; what is inherited is compared by effective()
         if x["t"] == "map":
             for kv in x["items"]:
                 if len(kv[0]) > 2:
@@ -145,13 +166,34 @@ def positions(data):
     def walk(n, loc, parent, ref):
         out.append((loc, n, parent, ref))
         if isinstance(n, dict):
-            for i, (k, v) in enumerate(n.items()):
+            for i, (k, v) in enumerate(yp.own_items(n)):
                 walk(v, loc + (i,), n, k)
         elif isinstance(n, list) and not yp.is_set(n):
             for i, e in enumerate(n):
                 walk(e, loc + (i,), n, i)
     walk(data, (), None, None)
     return out
+
+
+def own_loc(data, loc):
+    """An items()-ordinal location (vf.model.pathsem) as an image location, or None when it passes
+    through a key the mapping only inherits via `<<`."""
+    out, n = [], data
+    for i in loc:
+        if isinstance(n, dict):
+            k, v = list(n.items())[i]
+            own = [kk for kk, _ in yp.own_items(n)]
+            j = next((j for j, kk in enumerate(own) if kk is k or (type(kk) is type(k) and kk == k)), None)
+            if j is None:
+                return None
+            out.append(j)
+            n = v
+        elif isinstance(n, list) and not yp.is_set(n):
+            out.append(i)
+            n = n[i]
+        else:
+            out.append(i)
+    return tuple(out)
 
 
 def alias_sites(data, node):
